@@ -19,6 +19,7 @@ func checkC12(c *Ctx) {
 	c12Constructors(c)
 	c12MutatorResults(c)
 	c12AppendNewline(c)
+	c12AccessorReadonly(c)
 	c12Mirror(c)
 	c.NotCovered("that the serialised file equals the prediction of a map/list model; comment preservation of untouched items")
 	c.NotCovered("ownership of caller-supplied token slices (whether an API entry point copies the slice it is given)")
@@ -585,4 +586,104 @@ func c12AppendNewline(c *Ctx) {
 	c.Sites++
 	c.Check(loaderClean, "append.newline", FuncName(ain)+":verbatim", ain.Pos(), "the loader appends nothing of its own",
 		"appendItemNode, used while loading, can append a newline token: a loaded file would not be reproduced token for token")
+}
+
+// R7 accessor.readonly: the read accessors of the writer tree write no state of the tree.
+var c12Readers = []string{
+	"Attribute.Expr", "Block.Body", "Block.Labels", "Block.Type", "Body.Attributes", "Body.Blocks",
+	"Body.FirstMatchingBlock", "Body.GetAttribute", "Expression.Variables", "File.Body", "blockLabels.Current",
+	"node.BuildTokens", "Body.BuildTokens",
+}
+
+func c12AccessorReadonly(c *Ctx) {
+	c.Rule("R7 accessor.readonly: the read accessors of hclwrite (" + strings.Join(c12Readers, ", ") + ") and everything they call inside the package store nothing into memory that is not freshly allocated by the call (E-effects: no field store, map update, delete, copy or sort whose target is reachable from the receiver): an accessor that keeps state (a cache of decoded labels, a lazily built index) answers from before a later edit unless every editing method resets it, which nothing checks (File.Bytes/WriteTo are not in the list: formatting assigns SpacesBefore of the tree's own tokens, by design)")
+	roots := map[*ssa.Function]bool{}
+	for _, n := range c12Readers {
+		if fn := c.P.LookupFunc("hclwrite", n); fn != nil {
+			roots[fn] = true
+		}
+	}
+	if len(roots) < 8 {
+		c.CheckerFail("accessor.readonly", fmt.Sprintf("only %d of the listed read accessors resolve", len(roots)))
+		return
+	}
+	// a cache is in order when every editing method of the same type resets it
+	editors := map[*ssa.Function]bool{}
+	for _, n := range []string{"nodes.Clear", "nodes.Append", "nodes.AppendNode", "nodes.Insert", "nodes.InsertNode", "nodes.AppendUnstructuredTokens", "node.Detach", "node.ReplaceWith", "nodeSet.Add", "nodeSet.Remove", "nodeSet.Clear"} {
+		if fn := c.P.LookupFunc("hclwrite", n); fn != nil {
+			editors[fn] = true
+		}
+	}
+	if len(editors) < 9 {
+		c.CheckerFail("accessor.readonly", "the tree-editing primitives of hclwrite/node.go do not resolve")
+		return
+	}
+	resetBy := func(fv *types.Var) (bool, string) {
+		// the type that declares the field
+		var missing []string
+		n := 0
+		for _, fn := range c.P.pkgFuncs("hclwrite") {
+			if fn.Signature.Recv() == nil || len(fn.Params) == 0 || fn.Parent() != nil {
+				continue
+			}
+			rt := fn.Params[0].Type()
+			if p, ok := rt.Underlying().(*types.Pointer); ok {
+				rt = p.Elem()
+			}
+			st, ok := rt.Underlying().(*types.Struct)
+			if !ok {
+				continue
+			}
+			owns := false
+			for i := 0; i < st.NumFields(); i++ {
+				if st.Field(i) == fv {
+					owns = true
+				}
+			}
+			if !owns {
+				continue
+			}
+			edits, stores := false, false
+			for _, b := range fn.Blocks {
+				for _, ins := range b.Instrs {
+					switch x := ins.(type) {
+					case *ssa.Call:
+						if cal := x.Call.StaticCallee(); cal != nil && editors[cal] {
+							edits = true
+						}
+					case *ssa.Store:
+						if fa, ok := x.Addr.(*ssa.FieldAddr); ok && fieldVarOf(fa.X.Type(), fa.Field) == fv {
+							stores = true
+						}
+					}
+				}
+			}
+			if edits {
+				n++
+				if !stores {
+					missing = append(missing, FuncName(fn))
+				}
+			}
+		}
+		if len(missing) > 0 {
+			return false, strings.Join(missing, ", ")
+		}
+		return n > 0, ""
+	}
+	nf, nw := runEffectsFiltered(c, "accessor.readonly", roots, map[string]bool{"hclwrite": true}, nil,
+		"a read accessor changes the tree it reads, and not every method of that type that edits the tree resets what it stored: later reads answer from before the edit",
+		func(w effWrite) (bool, string) {
+			// BuildTokens(to) appends to the caller's token slice: its contract
+			if w.kind == "append" {
+				return true, ""
+			}
+			if !w.fresh && w.field != nil {
+				if ok, _ := resetBy(w.field); ok {
+					return false, "a cache: every method of the type that edits the tree assigns this field too"
+				}
+			}
+			return false, ""
+		})
+	c.Floor("accessor.readonly functions", nf, 15, "the accessors and the BuildTokens implementations they reach")
+	_ = nw
 }
